@@ -444,7 +444,7 @@ class IntView final {
     Write(other.Read());
   }
   template <typename OtherView>
-  void UncheckedCopyFrom(const IntView &other) const {
+  void UncheckedCopyFrom(const OtherView &other) const {
     UncheckedWrite(other.UncheckedRead());
   }
   template <typename OtherView>
